@@ -447,3 +447,87 @@ class Real(PackedOps):
         path = self.files[kv.get('f', 'f')]
         self.pool[kv['r']] = HealSparseMap.read(path, nside_coverage=2 ** int(kv['covord']))
         return 'ok'
+
+    def op_single(self, pos, kv):
+        m = self.m(pos[0])
+        i = int(kv['field'])
+        key = m.dtype.names[i] if m.is_rec_array else 'f%d' % i
+        sent = None
+        if kv.get('sentinel', 'default') != 'default':
+            sent = self.decode_sentinel(kv['sentinel'], m.dtype[key])
+        if kv.get('copy') == '1':
+            self.pool[kv['r']] = m.get_single(key, sentinel=sent, copy=True)
+        elif sent is None and kv.get('via', 'getitem') == 'getitem':
+            self.pool[kv['r']] = m[key]
+        else:
+            self.pool[kv['r']] = m.get_single(key, sentinel=sent, copy=False)
+        return 'ok'
+
+    def op_scov(self, pos, kv):
+        self.pool[kv['r']] = self.m(pos[0]).get_single_covpix_map(int(kv['k']))
+        return 'ok'
+
+    # ---- files --------------------------------------------------------------------
+    def op_meta(self, pos, kv):
+        m = self.m(pos[0])
+        md = dict(m.metadata) if m.metadata is not None else {}
+        v = kv.get('v', '')
+        md[kv['k']] = int(v) if v.lstrip('-').isdigit() else v
+        m.metadata = md
+        return 'ok'
+
+    def op_getmeta(self, pos, kv):
+        m = self.m(pos[0])
+        md = m.metadata if m.metadata is not None else {}
+        if kv['k'] not in md:
+            return 'none'
+        return str(md[kv['k']]).strip()
+
+    def op_write(self, pos, kv):
+        m = self.m(pos[0])
+        path = os.path.join(self.tmpdir(), kv.get('f', 'f') + '.hsp.fits')
+        m.write(path, clobber=True, nocompress=(kv.get('compress', '1') == '0'))
+        self.files[kv.get('f', 'f')] = path
+        return 'ok'
+
+    def op_read(self, pos, kv):
+        if kv.get('f', 'f') not in self.files:
+            raise NoMap(kv.get('f', 'f'))
+        path = self.files[kv.get('f', 'f')]
+        kw = {}
+        if 'pixels' in kv:
+            kw['pixels'] = [int(t) for t in split_list(kv['pixels'])]
+        self.pool[kv['r']] = HealSparseMap.read(path, **kw)
+        return 'ok'
+
+    def op_covread(self, pos, kv):
+        if kv.get('f', 'f') not in self.files:
+            raise NoMap(kv.get('f', 'f'))
+        cov = healsparse.HealSparseCoverage.read(self.files[kv.get('f', 'f')])
+        return enc_bits(cov.coverage_mask)
+
+    def op_fitsraw(self, pos, kv):
+        """the COV and SPARSE extensions as astropy itself shows them (not through healsparse)"""
+        import astropy.io.fits as afits
+        if kv.get('f', 'f') not in self.files:
+            raise NoMap(kv.get('f', 'f'))
+        with afits.open(self.files[kv.get('f', 'f')], memmap=False) as hdul:
+            cov = np.array(hdul[0].data, dtype=np.int64)
+            hdr = hdul[1].header
+            raw = hdul[1].data
+            if raw.dtype.fields is not None:
+                # table: take the columns one by one so that astropy applies TZERO (unsigned columns)
+                cols = [np.array(raw[n]) for n in raw.dtype.names]
+                sp = np.zeros(len(raw), dtype=[(n, c.dtype.newbyteorder('=')) for n, c in zip(raw.dtype.names, cols)])
+                for n, c in zip(raw.dtype.names, cols):
+                    sp[n] = c
+            else:
+                sp = np.array(raw).ravel()
+            if hdr.get('BITPACK', False):
+                sp = np.unpackbits(sp.astype(np.uint8), bitorder='little').astype(bool)
+            elif isinstance(hdr.get('SENTINEL'), (bool, np.bool_)):
+                sp = sp.astype(bool)
+            elif hdr.get('WIDEMASK', False):
+                sp = sp.reshape((-1, hdr['WWIDTH'])).astype(np.uint8)
+        line = "fitsraw f=%s cov=%s sp=%s" % (kv.get('f', 'f'), ','.join(str(int(v)) for v in cov), enc_cells(sp))
+        return 'raw', line
